@@ -47,12 +47,15 @@ def main():
 
         def run_demo(tag):
             exe = os.path.join(wt, "demo_" + tag)
-            c = sh("g++ %s %s -o %s" % (flags, demo, exe))
+            c = sh("g++ %s %s -o %s" % (flags if not tag.endswith("2") else alt_flags, demo, exe))
             if c.returncode != 0:
                 return {"compiled": False, "rc": None, "tail": c.stderr[-300:]}
             r = sh(exe, timeout=300)
             return {"compiled": True, "rc": r.returncode, "tail": (r.stdout + r.stderr)[-200:]}
 
+        alt_flags = None
+        if " -mbmi2" in flags:
+            alt_flags = flags.replace(" -mbmi2", "")
         clean = run_demo("clean")
         a = sh("git -C %s apply %s" % (wt, patch))
         if a.returncode != 0:
@@ -61,6 +64,13 @@ def main():
             b = sh("cd %s && cmake -S . -B _b -G Ninja -DCOVFIE_BUILD_TESTS=ON -DCOVFIE_PLATFORM_CPU=ON -DCMAKE_BUILD_TYPE=RelWithDebInfo -DCMAKE_CXX_FLAGS=-Wno-error >/dev/null && cmake --build _b -j16 >/dev/null 2>&1 && ./_b/tests/core/test_core | tail -1 && ./_b/tests/cpu/test_cpu | tail -1" % wt)
             passed = sum(int(x) for x in re.findall(r"PASSED\s+\]\s+(\d+) tests", b.stdout))
             seeded = run_demo("seeded")
+            if alt_flags and not (clean.get("compiled") and clean.get("rc") == 0 and (not seeded.get("compiled") or seeded.get("rc") != 0)):
+                # the notes mention -mbmi2 only to say it must NOT be used: retry without it
+                flags = alt_flags
+                seeded = run_demo("seeded2")
+                sh("git -C %s apply -R %s" % (wt, patch))
+                clean = run_demo("clean2")
+                sh("git -C %s apply %s" % (wt, patch))
             meta["confirmed"] = {
                 "applies": True, "builds_and_99_tests_pass": b.returncode == 0 and passed == 99, "tests_passed": passed,
                 "demo_clean": clean, "demo_seeded": seeded, "demo_flags": flags.replace(wt, "<worktree>"),
